@@ -240,7 +240,7 @@ STUBS = ["int/str/bytes shims (str(int) and bytes.hex() yield symbolic text that
 
 def configs(tier, seed):
     out = []
-    rlens = [3, 4, 5, 6] if tier == "quick" else [0, 2, 3, 4, 5, 6, 7, 8]
+    rlens = [3, 4, 5, 6, 7] if tier == "quick" else [0, 1, 2, 3, 4, 5, 6, 7, 8, 9]
     for name in CANDIDATES:
         for rlen in rlens:
             for cache in (True, False):
